@@ -311,8 +311,10 @@ Definition check_stats (cu2 floor2 k2max : F) (n m p : nat) (w : option (seq F))
               <= e2 * Num.max (Num.max (svnrm2 (wscalev w y)) (sfro2 (wscale w Phi) * svnrm2 c)) floor2) then 21%N
   (* the weighted residuals are a difference of nearly equal numbers at a good fit: chi2 is compared with
      the implementation's own (already accepted) residual vector, so that cancellation is not held against it *)
-  else if ~~ close1 e2 floor2 (sb_chi2 o) (svnrm2 (sb_rw o) / dof%:R) then 22%N
-  else if ~~ close1 e2 floor2 (sq (sb_rse o)) (sb_chi2 o) then 23%N
+  (* products / quotients / square roots of the implementation's own numbers: purely relative comparisons (no absolute floor — the
+     statistics of data in tiny units are tiny, an absolute floor would make these tests vacuous there) *)
+  else if ~~ close1 e2 0 (sb_chi2 o) (svnrm2 (sb_rw o) / dof%:R) then 22%N
+  else if ~~ close1 e2 0 (sq (sb_rse o)) (sb_chi2 o) then 23%N
   (* conditioning of H^T H estimated from the implementation's covariance: ||G|| ||Cov|| / chi2; beyond k2max the
      rounding error of any inversion is of the order of the result: the defining equation, the symmetry and the signs
      are then not compared (the final code is 1), everything that is a plain function of the reported covariance still is *)
@@ -336,12 +338,16 @@ Definition check_stats (cu2 floor2 k2max : F) (n m p : nat) (w : option (seq F))
                (cii * cjj <= 0) ||
                (close1 e2 floor2 (sq rij) (sq cij / (cii * cjj)) && (0 <= rij * cij) && (illc || (sq rij <= 1 + e2))))
              [seq (i, j) | i <- iota 0 q, j <- iota 0 q] then 28%N
+  (* componentwise rounding bound of the quadratic form: |u^2 - j^T Cov j| <= e * sum_ab |j_a| |Cov_ab| |j_b| (a norm-wise bound
+     would be vacuous when the columns of J are of very different size, e.g. data in tiny units) *)
   else if ~~ all (fun uj =>
                let s2 := svdot uj.2 (lincomb q cov uj.2) in
-               (sq (sq uj.1 - s2) <= e2 * (sq (svnrm2 uj.2) * sfro2 cov)) && (0 <= uj.1))
+               let ja := [seq `|x| | x <- uj.2] in
+               let s2a := svdot ja (lincomb q [seq [seq `|x| | x <- col] | col <- cov] ja) in
+               (sq (sq uj.1 - s2) <= e2 * sq s2a) && (0 <= uj.1))
              (zip (sb_usigma o) (strans n J)) then 29%N
   else if ~~ all (fun b => (size b.2 == n) &&
-               all (fun ru => close1 e2 floor2 ru.1 (b.1 * ru.2) && (0 <= ru.1)) (zip b.2 (sb_usigma o)))
+               all (fun ru => close1 e2 0 ru.1 (b.1 * ru.2) && (0 <= ru.1)) (zip b.2 (sb_usigma o)))
              (sb_bands o) then 30%N
   else if illc then 1%N
   else 0%N.
@@ -349,6 +355,6 @@ Definition check_stats (cu2 floor2 k2max : F) (n m p : nat) (w : option (seq F))
    radius_i = t * sigma_i, sigma_i >= 0; code 0 ok, 30 band, 31 shapes *)
 Definition check_band (cu2 floor2 : F) (n : nat) (t : F) (usigma radius : seq F) : nat :=
   if ~~ ((size usigma == n) && (size radius == n)) then 31%N
-  else if all (fun ru => close1 (cu2 * n%:R) floor2 ru.1 (t * ru.2) && (0 <= ru.1) && (0 <= ru.2)) (zip radius usigma)
+  else if all (fun ru => close1 (cu2 * n%:R) 0 ru.1 (t * ru.2) && (0 <= ru.1) && (0 <= ru.2)) (zip radius usigma)
        then 0%N else 30%N.
 End Numeric.
